@@ -71,6 +71,31 @@ def compare_values(vmv, wv, ret, ref):
     return "engine returned %r, VM returned %r" % (wv, vmv)
 
 
+def beyond_subset(module):
+    """'mod' / 'constant-outside-32-bits' when the generated module uses what the backend does not translate, else None"""
+    from ..lang import N, Bin, IntLit
+    found = []
+
+    def walk(n):
+        if isinstance(n, Bin) and n.op == "%":
+            found.append("mod")
+        if isinstance(n, IntLit) and not (-2 ** 31 <= n.value < 2 ** 31):
+            found.append("constant-outside-32-bits")
+        if isinstance(n, list):
+            for x in n:
+                walk(x)
+        elif isinstance(n, N):
+            for k in n.__slots__:
+                if k == "fn":
+                    continue
+                v = getattr(n, k)
+                if isinstance(v, (N, list)):
+                    walk(v)
+    for f in module.funcs:
+        walk(f.body)
+    return found[0] if found else None
+
+
 def check_module(R, obs, rng, name, module, family, must_be_supported):
     src = print_module(module)
     for opt in (False, True):
@@ -86,6 +111,17 @@ def check_module(R, obs, rng, name, module, family, must_be_supported):
             if must_be_supported:
                 R.count("refused_inside_subset")
                 R.add_to("refused_inside_subset_reasons", "%s: %s" % (e.refusal["cls"], e.refusal["msg"][:60]))
+                # the backend's subset, as built: scalar parameters, + - * /, == < >, int constants within 32 bits, float
+                # constants, void and non-void results.  Programs of the subset "must agree": a refusal is accepted only
+                # for the two things this generator adds on purpose and the backend does not translate (`%`, an int
+                # literal outside 32 bits) — judged on the generator's tree, not on the wording of the error
+                why = beyond_subset(module)
+                if why is None:
+                    R.violation("refused-inside-subset:%s" % e.refusal.get("stage"),
+                                "%s (O%d): a program of the backend's scalar straight-line subset is refused (%s: %s)"
+                                % (name, int(opt), e.refusal["cls"], e.refusal["msg"][:80]), dict(rep, mode="refusal"))
+                else:
+                    R.count("refusals_explained_by:" + why)
             continue
         R.count("modules_emitted")
         if e.decode_error or e.validation_error:
@@ -200,6 +236,8 @@ def replay(case):
     opt = bool(case.get("optimize"))
     e = wasmrun.emit(src, opt)
     detail = {"refused": e.refused, "decode": e.decode_error, "validate": e.validation_error}
+    if case.get("mode") == "refusal":
+        return bool(e.refused), detail
     if e.refused or not e.out.accepted:
         return False, detail
     if e.decode_error or e.validation_error:
